@@ -63,7 +63,7 @@ Definition ante_view (m : l1msg) : msg :=
   | _ => Leaf LOther
   end.
 
-Record block := { b_dt : Z; b_absent : list Z; b_txs : list (list l1msg) }.
+Record block := { b_dt : Z; b_absent : list Z; b_evidence : list evidence; b_txs : list (list l1msg) }.
 
 Record genesis := {
   g_tokens : list Z; g_max_vals : Z; g_unbond_secs : Z; g_window : Z; g_min_signed_pc : Z;
@@ -157,12 +157,23 @@ Definition voter_known (c : chain) (cons : Z) : bool :=
 Definition sorted_votes (vs : gmap Z Z) : list (Z * Z) :=
   map (fun k => (k, default 0 (vs !! k))) (sorted_keys vs).
 
-Definition begin_block (c : chain) (votes : list (Z * Z)) (absent : list Z) : chain + Z :=
+(* x/evidence BeginBlocker: the block's Misbehavior entries, in order *)
+Fixpoint handle_evidences (evs : list evidence) (c : chain) : option chain :=
+  match evs with
+  | [] => Some c
+  | e :: rest => match handle_evidence c e with None => None | Some c' => handle_evidences rest c' end
+  end.
+
+Definition begin_block (c : chain) (votes : list (Z * Z)) (absent : list Z) (evs : list evidence) : chain + Z :=
   (* x/distribution AllocateTokens (height > 1): every voter must have a validator record *)
   if (1 <? height c) && negb (forallb (fun v => voter_known c (fst v)) votes) then inr 1
   else match handle_votes votes absent c with
        | None => inr 2
-       | Some c1 => inl (poa_begin_block c1)
+       | Some c1 =>
+         match handle_evidences evs c1 with
+         | None => inr 3
+         | Some c2 => inl (poa_begin_block c2)
+         end
        end.
 
 (* ---- one block ---- *)
@@ -174,7 +185,7 @@ Definition run_block (w : world) (b : block) : world * option block_out :=
   | None =>
     let c0 := with_clock (w_chain w) (height (w_chain w) + 1) (now (w_chain w) + b_dt b) in
     let votes := match c_prev (w_comet w) with Some vs => sorted_votes vs | None => [] end in
-    match begin_block c0 votes (b_absent b) with
+    match begin_block c0 votes (b_absent b) (b_evidence b) with
     | inr e => ({| w_chain := c0; w_comet := w_comet w; w_halted := Some (HBeginBlock e) |}, None)
     | inl c1 =>
       let '(c2, outs) := deliver_txs c1 (b_txs b) in
